@@ -135,11 +135,24 @@ impl<E: Eviction> crate::indexer::Indexer for VecIndexer<E> {
     }
 }
 
-/// Recording event listener: fixed-size log, no allocation.
-pub const LOG_CAP: usize = 4;
+/// Recording event listener / pipe: O(1) counters indexed by (key, version bit) - no logs, no loops (a log scanned by
+/// loops made the insert harnesses 3x slower and 3x larger).  Key index: 16 -> 0, 17 -> 1, 32 -> 2, 48 -> 3; version bit =
+/// bit 3 of the value (set for pre-state entries, clear for entries inserted by the step).
+pub const SLOTS: usize = 8;
+pub fn slot_of(k: u64, v: u64) -> usize {
+    let ki = match k {
+        16 => 0,
+        17 => 1,
+        32 => 2,
+        48 => 3,
+        _ => panic!("harness: unexpected key in a notification"),
+    };
+    ki * 2 + ((v >> 3) & 1) as usize
+}
 pub struct EventLog {
     pub n: std::cell::Cell<usize>,
-    pub ev: [std::cell::Cell<(u8, u64, u64)>; LOG_CAP],
+    pub cnt: [std::cell::Cell<u8>; SLOTS],
+    pub reason: [std::cell::Cell<u8>; SLOTS],
 }
 unsafe impl Send for EventLog {}
 unsafe impl Sync for EventLog {}
@@ -147,7 +160,8 @@ impl EventLog {
     pub fn new() -> Self {
         Self {
             n: std::cell::Cell::new(0),
-            ev: std::array::from_fn(|_| std::cell::Cell::new((0, 0, 0))),
+            cnt: [std::cell::Cell::new(0), std::cell::Cell::new(0), std::cell::Cell::new(0), std::cell::Cell::new(0), std::cell::Cell::new(0), std::cell::Cell::new(0), std::cell::Cell::new(0), std::cell::Cell::new(0)],
+            reason: [std::cell::Cell::new(0), std::cell::Cell::new(0), std::cell::Cell::new(0), std::cell::Cell::new(0), std::cell::Cell::new(0), std::cell::Cell::new(0), std::cell::Cell::new(0), std::cell::Cell::new(0)],
         }
     }
     pub fn code(e: Event) -> u8 {
@@ -158,48 +172,31 @@ impl EventLog {
             Event::Clear => 4,
         }
     }
-    /// reason code of the first logged event with this (key, value); 0 if none
+    /// reason code of the (last) notification for this (key, value); 0 if none
     pub fn reason_of(&self, k: u64, v: u64) -> u8 {
-        let mut i = 0;
-        while i < self.n.get() {
-            let (r, kk, vv) = self.ev[i].get();
-            if kk == k && vv == v {
-                return r;
-            }
-            i += 1;
-        }
-        0
+        self.reason[slot_of(k, v)].get()
     }
-    /// number of logged events with this (key, value)
+    /// number of notifications for this (key, value)
     pub fn count_kv(&self, k: u64, v: u64) -> usize {
-        let mut c = 0;
-        let mut i = 0;
-        while i < self.n.get() {
-            let (_, kk, vv) = self.ev[i].get();
-            if kk == k && vv == v {
-                c += 1;
-            }
-            i += 1;
-        }
-        c
+        self.cnt[slot_of(k, v)].get() as usize
     }
 }
 impl EventListener for EventLog {
     type Key = u64;
     type Value = u64;
     fn on_leave(&self, reason: Event, key: &u64, value: &u64) {
-        let n = self.n.get();
-        assert!(n < LOG_CAP, "harness: event log bound exceeded");
-        self.ev[n].set((Self::code(reason), *key, *value));
-        self.n.set(n + 1);
+        let s = slot_of(*key, *value);
+        self.cnt[s].set(self.cnt[s].get() + 1);
+        self.reason[s].set(Self::code(reason));
+        self.n.set(self.n.get() + 1);
     }
 }
 
-/// Recording pipe: fixed-size log of (key, value) of every piece sent.
+/// Recording pipe: per (key, version bit) count of pieces sent.
 pub struct RecPipe {
     pub enabled: bool,
     pub n: std::cell::Cell<usize>,
-    pub sent: [std::cell::Cell<(u64, u64)>; LOG_CAP],
+    pub cnt: [std::cell::Cell<u8>; SLOTS],
 }
 unsafe impl Send for RecPipe {}
 unsafe impl Sync for RecPipe {}
@@ -213,25 +210,16 @@ impl RecPipe {
         Self {
             enabled,
             n: std::cell::Cell::new(0),
-            sent: std::array::from_fn(|_| std::cell::Cell::new((0, 0))),
+            cnt: [std::cell::Cell::new(0), std::cell::Cell::new(0), std::cell::Cell::new(0), std::cell::Cell::new(0), std::cell::Cell::new(0), std::cell::Cell::new(0), std::cell::Cell::new(0), std::cell::Cell::new(0)],
         }
     }
     pub fn count_kv(&self, k: u64, v: u64) -> usize {
-        let mut c = 0;
-        let mut i = 0;
-        while i < self.n.get() {
-            if self.sent[i].get() == (k, v) {
-                c += 1;
-            }
-            i += 1;
-        }
-        c
+        self.cnt[slot_of(k, v)].get() as usize
     }
     fn record(&self, k: u64, v: u64) {
-        let n = self.n.get();
-        assert!(n < LOG_CAP, "harness: pipe log bound exceeded");
-        self.sent[n].set((k, v));
-        self.n.set(n + 1);
+        let s = slot_of(k, v);
+        self.cnt[s].set(self.cnt[s].get() + 1);
+        self.n.set(self.n.get() + 1);
     }
 }
 impl crate::pipe::Pipe for RecPipe {
